@@ -223,6 +223,13 @@ def judge_import(case, how="array", prev=None):
                     _ = np.asarray(tracks.segmentation)
                 finally:
                     shutil.rmtree(wd, ignore_errors=True)
+            elif how == "dask":
+                import dask.array as da
+
+                # a lazily loaded movie whose chunks hold two frames each
+                lazy = da.from_array(src.copy(), chunks=(2, *src.shape[1:]))
+                tracks = tracks_from_df(df, segmentation=lazy, scale=scale, node_name_map=nm)
+                _ = np.asarray(tracks.segmentation)
             elif how == "builder" and prev is not None:
                 from funtracks.import_export import CSVTracksBuilder
 
@@ -291,7 +298,7 @@ def run_shard(spec):
                 probs = judge_direct(case)
                 ran = True
             else:
-                how = rng.choice(["array", "array", "folder", "builder"])
+                how = rng.choice(["array", "array", "folder", "builder", "dask"])
                 if how == "builder" and (prev_inputs is None
                                          or prev_inputs[1].ndim != case["src"].ndim):
                     how = "array"
@@ -353,7 +360,7 @@ def floors(tier):
             "cases-with-unlisted": 500, "cases-colliding-ids": 500,
             "postcondition-evaluations": 2500, "cases-rows-not-grouped-by-time": 500,
             "cases-id-at-dtype-max": 100, "import-folder": 300, "import-builder": 300,
-            "import-folder-11+frames": 30}
+            "import-folder-11+frames": 30, "import-dask": 300}
 
 
 def replay(doc):
